@@ -176,6 +176,7 @@ func edits() []Op {
 		tog("edit:misc/n.txt", func(v *Vars) { v.N = 1 - v.N }),
 		tog("edge:top->leaf", func(v *Vars) { v.Edge = !v.Edge }),
 		tog("target:pkg:other", func(v *Vars) { v.Other = !v.Other }),
+		tog("target:pkg:co:lon", func(v *Vars) { v.Colon = !v.Colon }),
 		tog("fail:gen", func(v *Vars) { v.Fail[0] = !v.Fail[0] }),
 		tog("fail:mid", func(v *Vars) { v.Fail[1] = !v.Fail[1] }),
 		tog("fail:leaf", func(v *Vars) { v.Fail[2] = !v.Fail[2] }),
@@ -213,6 +214,7 @@ func builds() []Op {
 		b("build:leaf", buildOpts{Target: tLeaf}),
 		b("build:top:always", buildOpts{Target: tTop, Always: true}),
 		b("build:other", buildOpts{Target: tOther}),
+		b("build:colon", buildOpts{Target: tColon}),
 		b("build:gen+top(one load)", buildOpts{Target: tGen, Then: tTop}),
 		b("build:mid+top(one load)", buildOpts{Target: tMid, Then: tTop}),
 		b("build:leaf+top(one load)", buildOpts{Target: tLeaf, Then: tTop}),
@@ -328,8 +330,8 @@ func alphabet(prop string, thorough bool) []Op {
 		if thorough {
 			return pick(all...)
 		}
-		return pick("edit:src/a.txt", "addremove:dir/w.txt", "target:pkg:other", "edge:top->leaf", "fail:mid", "stray-files", "delete:gen/g.txt",
-			"build:top", "build:leaf", "gc:full", "gc:index")
+		return pick("edit:src/a.txt", "addremove:dir/w.txt", "target:pkg:other", "target:pkg:co:lon", "edge:top->leaf", "stray-files", "delete:gen/g.txt",
+			"build:top", "build:leaf", "build:colon", "gc:full", "gc:index")
 	case "C18":
 		if thorough {
 			return pick(all...)
@@ -610,7 +612,16 @@ func main() {
 	r := vlib.Start(*fProp)
 	x := &searcher{r: r, prop: *fProp, roots: make(chan string, 64)}
 	for i := 0; i < 32; i++ {
-		x.roots <- filepath.Join(r.Scratch, fmt.Sprintf("root%d", i), "p")
+		// every project is opened through a symbolic link on its path (build state must be
+		// addressed consistently whichever spelling of the path is used)
+		real := filepath.Join(r.Scratch, fmt.Sprintf("real%d", i))
+		link := filepath.Join(r.Scratch, fmt.Sprintf("root%d", i))
+		os.MkdirAll(real, 0o755)
+		os.Remove(link)
+		if err := os.Symlink(real, link); err != nil {
+			vlib.Fatalf("symlink: %v", err)
+		}
+		x.roots <- filepath.Join(link, "p")
 	}
 	if r.ReplayIn != "" {
 		x.replay()
